@@ -164,7 +164,7 @@ pub fn run_c05(tier: Tier, seed: u64, known: &KnownFindings) -> CheckReport {
     let bm = run_batch(&crate::checks::c08::SeqVsPar { prop: "C05", name: "seq-vs-par-mix-c05", mix: true }, &mk("C05", "parallel-evaluation-of-large-mixed-populations", seed, tier, tier.pick(1_500, 40_000), known));
     let be = run_batch(&crate::checks::experiment::Experiment { prop: "C05" }, &mk("C05", "par-experiment-audit", seed, tier, tier.pick(2_000, 60_000), known));
     let bi = run_batch(&crate::checks::indiv::IndividualHistories, &mk("C05", "individual-histories", seed, tier, tier.pick(300_000, 5_000_000), known));
-    let mut r = report("C05", tier, seed, "individual-histories: one case = a seeded history of <= 80 Individual-level operations (construct evaluated / unevaluated, evaluate_with, set_objective, write through solution_mut, solution_mut without writing, clone, clone_from directly and through Vec::clone_from, clone_from_slice and Option::clone_from, move between collections, as_solutions_mut, into_solutions + into_individuals) against an (solution, Option<objective>) model audited after every operation. templates: one case = (template, swarm-style valid parameters incl. boundary values, problem instance with or without penalty regions, termination, seed); after EVERY child execution of every sequential block, at every nesting level, every evaluated individual in the population stack (all scope levels), best-so-far, elitist archive, personal bests, global best and molecule memories must carry exactly F(solution) (bit equality); non-trivial = at least one step executed; distinct = distinct (component-kind sequence, objective calls, result, final state) fingerprints. templates-parallel-evaluator: the same audit while objectives are written by the simulated workers of problems::evaluate::Parallel under seeded schedules", vec![b, bp, bm, be, bi], &["problems::evaluate::Parallel on the simulated pool (parallel batch)"]);
+    let mut r = report("C05", tier, seed, "parallel-evaluation-of-large-mixed-populations: prepared populations of 30..160 binary individuals over >= 6 bits (30 % neighbour duplicates, evaluated next to unevaluated) evaluated by evaluate::Parallel on 1..8 simulated workers under random / stall / sticky / PCT schedules, audited like every other step. par-experiment-audit: par_experiment (<= 6 runs x <= 3 problems, fixed- and varying-size templates, in 30 % of the cases every run evaluates with a clone of one Parallel evaluator) on the simulated pool; at the end of every run every evaluated individual of its population stack and its best individual must carry F(solution). individual-histories: one case = a seeded history of <= 80 Individual-level operations (construct evaluated / unevaluated, evaluate_with, set_objective, write through solution_mut, solution_mut without writing, clone, clone_from directly and through Vec::clone_from, clone_from_slice and Option::clone_from, move between collections, as_solutions_mut, into_solutions + into_individuals) against an (solution, Option<objective>) model audited after every operation. templates: one case = (template, swarm-style valid parameters incl. boundary values, problem instance with or without penalty regions, termination, seed); after EVERY child execution of every sequential block, at every nesting level, every evaluated individual in the population stack (all scope levels), best-so-far, elitist archive, personal bests, global best and molecule memories must carry exactly F(solution) (bit equality); non-trivial = at least one step executed; distinct = distinct (component-kind sequence, objective calls, result, final state) fingerprints. templates-parallel-evaluator: the same audit while objectives are written by the simulated workers of problems::evaluate::Parallel under seeded schedules", vec![b, bp, bm, be, bi], &["problems::evaluate::Parallel on the simulated pool (parallel batch)"]);
     r.stubbed_components.push("rayon (simulated worker pool on shuttle threads) in the parallel batch".into());
     r
 }
@@ -176,7 +176,7 @@ pub fn run_c06(tier: Tier, seed: u64, known: &KnownFindings) -> CheckReport {
     let bm = run_batch(&crate::checks::c08::SeqVsPar { prop: "C06", name: "seq-vs-par-mix-c06", mix: true }, &mk("C06", "parallel-evaluation-of-large-mixed-populations", seed, tier, tier.pick(1_500, 40_000), known));
     let be = run_batch(&crate::checks::experiment::Experiment { prop: "C06" }, &mk("C06", "par-experiment-counts", seed, tier, tier.pick(2_000, 60_000), known));
     let bi = run_batch(&EvalIds, &mk("C06", "evaluator-identifiers", seed, tier, tier.pick(50_000, 1_000_000), known));
-    let mut r = report("C06", tier, seed, "one case as in C05 plus the faults no-evaluator / wrong-evaluator-id; at every evaluation step: one objective call per individual of the pre-step population (multiset equality), order and solutions unchanged, all evaluated, counter advanced by the population size (0 for empty population / empty stack); at every step of any component: counter delta == objective calls in the step; at run end: reported evaluations == objective calls, budget overshoot smaller than the last pass; missing evaluator: Err, zero calls, zero steps; non-trivial = at least one evaluation step executed. templates-parallel-evaluator: identical monitors with Parallel on 1..8 simulated workers under seeded schedules (exactly once, count exact, under every explored interleaving). evaluator-identifiers: a configuration that evaluates through identifier Global/A/B with evaluators registered under a subset of them", vec![b, bp, bm, be, bi], &["problems::evaluate::Parallel on the simulated pool (parallel batch)"]);
+    let mut r = report("C06", tier, seed, "parallel-evaluation-of-large-mixed-populations and par-experiment-counts: as in C05, with the evaluation-step monitors and, for experiments, sum of the evaluations reported by all runs == objective calls made. one case as in C05 plus the faults no-evaluator / wrong-evaluator-id; at every evaluation step: one objective call per individual of the pre-step population (multiset equality), order and solutions unchanged, all evaluated, counter advanced by the population size (0 for empty population / empty stack); at every step of any component: counter delta == objective calls in the step; at run end: reported evaluations == objective calls, budget overshoot smaller than the last pass; missing evaluator: Err, zero calls, zero steps; non-trivial = at least one evaluation step executed. templates-parallel-evaluator: identical monitors with Parallel on 1..8 simulated workers under seeded schedules (exactly once, count exact, under every explored interleaving). evaluator-identifiers: a configuration that evaluates through identifier Global/A/B with evaluators registered under a subset of them", vec![b, bp, bm, be, bi], &["problems::evaluate::Parallel on the simulated pool (parallel batch)"]);
     r.stubbed_components.push("rayon (simulated worker pool on shuttle threads) in the parallel batch".into());
     r
 }
